@@ -52,6 +52,9 @@ pub enum Fail {
     Livelock(String),
     /// watchdog fired without quiescence: says nothing about the property
     Inconclusive(String),
+    /// a wall-clock lateness beyond the calibrated bound: only a verdict if it recurs in every immediate re-run of the
+    /// same instance (main turns it into Violation or Inconclusive); a loaded machine produces one-off latenesses
+    Suspect(String),
 }
 pub type Res = Result<(), Fail>;
 pub fn viol<T>(s: impl Into<String>) -> Result<T, Fail> {
@@ -64,11 +67,12 @@ impl Fail {
             Fail::Stranded(_) => "stranded",
             Fail::Livelock(_) => "livelock",
             Fail::Inconclusive(_) => "inconclusive",
+            Fail::Suspect(_) => "suspect",
         }
     }
     pub fn msg(&self) -> &str {
         match self {
-            Fail::Violation(s) | Fail::Stranded(s) | Fail::Livelock(s) | Fail::Inconclusive(s) => s,
+            Fail::Violation(s) | Fail::Stranded(s) | Fail::Livelock(s) | Fail::Inconclusive(s) | Fail::Suspect(s) => s,
         }
     }
 }
@@ -517,8 +521,27 @@ pub fn is_cancel_panic(e: &Box<dyn std::any::Any + Send>) -> bool {
 }
 
 /// sleep that is legal for both kinds of actor
+/// worst oversleep of a harness nap in this process (us) and what it was: a may sleep that takes seconds explains
+/// helpers that "gave up" and is itself worth reporting
+pub static WORST_NAP: std::sync::Mutex<(u64, u64, bool)> = std::sync::Mutex::new((0, 0, false));
 pub fn nap(us: u64) {
+    let t0 = Instant::now();
     may::coroutine::sleep(Duration::from_micros(us));
+    let over = (t0.elapsed().as_micros() as u64).saturating_sub(us);
+    if over > 200_000 {
+        let mut w = WORST_NAP.lock().unwrap_or_else(|e| e.into_inner());
+        if over > w.0 {
+            *w = (over, us, may::coroutine::is_coroutine());
+        }
+    }
+}
+pub fn worst_nap() -> String {
+    let w = WORST_NAP.lock().unwrap_or_else(|e| e.into_inner());
+    if w.0 == 0 {
+        String::new()
+    } else {
+        format!(" [worst harness nap so far: sleep({}us) in a {} took {}us longer]", w.1, if w.2 { "coroutine" } else { "thread" }, w.0)
+    }
 }
 
 // ------------------------------------------------------------------ JSON helpers
